@@ -755,7 +755,11 @@ sqf::runtime::runtime::result sqf::runtime::runtime::execute(sqf::runtime::runti
         { // cut short: what is left of it must not be picked up by a later run
             m_contexts.erase(std::remove(m_contexts.begin(), m_contexts.end(), eval_context), m_contexts.end());
             if (!nested) { m_evaluate_halt = false; }
-            m_runtime_error = false;
+            // the time limit of a run in progress ended the evaluation: the run did not succeed, the
+            // operator that asked for the evaluation fails with it
+            m_runtime_error = m_state == state::running &&
+                configuration().max_runtime != std::chrono::milliseconds::zero() &&
+                configuration().max_runtime + m_run_timestamp < std::chrono::system_clock::now();
             success = false;
             return {};
         }
